@@ -48,11 +48,11 @@ def q(t):
     return "'" + t.replace("\\", "\\\\").replace("'", "\\'") + "'"
 
 
-def grammar_text(text, form, kw):
+def grammar_text(text, form, kw, idname="ID"):
     if form == "inline":
-        g = "S: Item+;\nItem: %s | ID;\nterminals\nID: /%s/;\n" % (q(text), ID_RE)
+        g = "S: Item+;\nItem: %s | %s;\nterminals\n%s: /%s/;\n" % (q(text), idname, idname, ID_RE)
     else:
-        g = "S: Item+;\nItem: X | ID;\nterminals\nX: %s;\nID: /%s/;\n" % (q(text), ID_RE)
+        g = "S: Item+;\nItem: X | %s;\nterminals\nX: %s;\n%s: /%s/;\n" % (idname, q(text), idname, ID_RE)
     if kw:
         g += "KEYWORD: /%s/;\n" % kw
     return g
@@ -109,6 +109,11 @@ def cases(tier, seed):
         for text in ["ab", "if", "A+", "a1"]:
             for kw in (None, r"\w+"):
                 out.append({"name": "%r|declared|kw=%s|icase" % (text, kw), "params": {"text": text, "form": "declared", "kw": kw, "N": N, "icase": True}, "budget_s": 1500})
+    # the identifier-like regex terminal under another name (sorting after / before the string terminal's name)
+    for text, form, kw in [("if", "inline", r"\w+"), ("if", "declared", r"\w+"), ("ab", "inline", r"[a-z]+"), ("ab", "declared", None), ("+", "inline", None)]:
+        for idname in ("zword", "Aid"):
+            out.append({"name": "%r|%s|kw=%s|regex named %s" % (text, form, kw, idname),
+                        "params": {"text": text, "form": form, "kw": kw, "N": min(N, len(text) + 2), "icase": False, "idname": idname}, "budget_s": 1500})
     out.append({"name": "twin:'if'|declared|kw=\\w+", "params": {"text": "if", "form": "declared", "kw": r"\w+", "N": 3, "icase": False, "twin": True},
                 "expect_refuted": True, "budget_s": 600})
     return out
@@ -132,9 +137,10 @@ def build(params, symbolic):
     text, form, kw, N = params["text"], params["form"], params["kw"], params["N"]
     icase = params.get("icase", False)
     twin = params.get("twin")
+    idname = params.get("idname", "ID")
     try:
-        grammar = Grammar.from_string(grammar_text(text, form, kw), ignore_case=icase)
-        other = Grammar.from_string(grammar_text(text, "declared" if form == "inline" else "inline", kw), ignore_case=icase) if not known_class(
+        grammar = Grammar.from_string(grammar_text(text, form, kw, idname), ignore_case=icase)
+        other = Grammar.from_string(grammar_text(text, "declared" if form == "inline" else "inline", kw, idname), ignore_case=icase) if not known_class(
             text, "declared" if form == "inline" else "inline", kw) else None
     except GrammarError as e:
         build_error = "grammar with string terminal %r (%s, KEYWORD=%s) does not construct: %s" % (text, form, kw, str(e).replace("\n", " ")[:120])
@@ -154,7 +160,7 @@ def build(params, symbolic):
     pats = pyre.install(grammar, "aifb_+ 1", 4) if symbolic else []
     parser = Parser(grammar, build_tree=True)
     xterm = grammar.get_terminal(xname)
-    idterm = grammar.get_terminal("ID")
+    idterm = grammar.get_terminal(idname)
     kwd = is_keyword(text, kw)
     L = len(text)
     stats = {"keyword": int(kwd)}
@@ -218,7 +224,7 @@ def build(params, symbolic):
                 continue
             k = id_match(w, n, pos)
             if k:
-                want.append(("ID", pos, pos + k))
+                want.append((idname, pos, pos + k))
                 pos += k
                 continue
             err = pos
